@@ -13,7 +13,7 @@ from sa.model import AnalysisError, FunctionInfo, dotted, parent, short
 UTILS = "sedpack.io.utils"
 SAFE_UPDATE = f"{UTILS}:safe_update_file"
 FILLER = "sedpack.io.dataset_filler"
-WHO_FLOOR = 9
+WHO_FLOOR = 7
 
 
 def fresh_hook(ctx: Context, fn: FunctionInfo):
